@@ -400,6 +400,7 @@ class StorageRunner:
         abort_at = end[1] if end[0] == 'abort' else None
         written = []        # (oid, data)
         pending = {}
+        undone_here = set()
         new_oids = []
         failed = False
         is_undo = False
@@ -460,6 +461,11 @@ class StorageRunner:
                 if not cands:
                     continue
                 target = cands[r[1] % len(cands)]
+                if target.tid in undone_here:
+                    # the same transaction twice in one undo transaction: not a "choice of transactions to undo"
+                    self.out.excluded += 1
+                    continue
+                undone_here.add(target.tid)
                 verdict, urecs = self.plan_undo(target, pending)
                 if getattr(target, 'maybe_packed', False) and verdict == 'ok':
                     verdict = 'either'      # a pack that freed nothing leaves the transaction undoable
